@@ -724,12 +724,11 @@ func (r *Runner) step(op string) string {
 		res := n.ProcessResult(b)
 		evs := n.DrainEvents()
 		out := ""
-		switch res.ForkChoice {
-		case "identical", "doubleForging", "discard", "differentChain":
-			// LIP-0014: the receive time used by the tie-break rule is that of the current tip; a block that is
-			// dropped or handed to the synchroniser must not touch it
+		// LIP-0014: the receive time used by the tie-break rule is that of the current tip; a block that is dropped,
+		// handed to the synchroniser or rejected (the tip stays what it was) must not touch it
+		if n.Tip() != nil && bytes.Equal(n.Tip().Header.ID, tipBefore.Header.ID) {
 			if lr1 := n.Exec.VerifLastBlockReceived(); lr1 != lr0 && (lr0 == nil || lr1 == nil || !lr1.Equal(*lr0)) {
-				r.fail("c07-receive-time-changed-by-unapplied-block", fmt.Sprintf("block %d classified %s changed the recorded receive time of the tip (%v -> %v)", b.Header.Height, res.ForkChoice, lr0, lr1))
+				r.fail("c07-receive-time-changed-by-unapplied-block", fmt.Sprintf("block %d classified %s (err=%v) left the tip unchanged but changed its recorded receive time (%v -> %v)", b.Header.Height, res.ForkChoice, res.Err, lr0, lr1))
 			}
 		}
 		switch res.ForkChoice {
